@@ -66,7 +66,7 @@ RAND_ALPHA = ["a", "B", "c", "d", " ", " ", "\n", "\n", "(", ")", "'", "\"", "."
 
 OPS = ["d", "c", "y", "g?", "gu", "gU", "g~", ">", "<"]
 COUNT_SENSITIVE = {"h", "l", "w", "W", "b", "B", "e", "E", "f", "F", "t", "T", "j", "k", "gg"}
-NO_MOVE = {"iw", "iW", "aw", "aW", "j", "k", "ib", "ab", "iq", "aq"}
+NO_MOVE = {"iw", "iW", "aw", "aW", "j", "k", "ib", "ab", "iq", "aq", "ap"}
 LINEWISE = {"j", "k", "G", "gg"}
 # oracle-only motions (key strings); not sent to the model
 EXTRA_MOTIONS = ["ge", "gE", "g_", "|", "%", "{", "}", "ap", ";", ","]
@@ -235,8 +235,8 @@ def rand_op(rng):
     reg = rng.choice([None, None, None, "a", "z", "0", "7"]) if name in ("d", "c", "y") else None
     oa = rng.choice([None, None, None, 2, 3, 5, 12, 1000, 1000000])
     ma = rng.choice([None, None, None, 2, 3, 4, 11, 1000, 2000000])
-    if m[0] in ("0",) or (m[0] in EXTRA_MOTIONS and m[0] in ("%", "|")):
-        ma = None if m[0] == "0" else ma
+    if m[0] in ("0", "G"):
+        ma = None   # `20` is a count; `3G` is bound to go-to-history-line
     return [oa, name, reg, ma] + m
 
 
@@ -432,6 +432,14 @@ def fails(text, cur, m, count):
         return True if (m[1] not in text or m[2] not in text) else None
     if k in ("iq", "aq"):
         return True if (m[1] not in text[:cur] or m[1] not in text[cur + 1:]) else None
+    if k in ("ge", "gE"):
+        return True if text[:cur].strip() == "" else None
+    if k == "g_":
+        return True if ls == le else None
+    if k == "%":
+        return True if text[cur:cur + 1] not in tuple("()[]{}<>") or text[cur:cur + 1] == "" else None
+    if k in (";", ","):
+        return True   # no previous f/F/t/T in a fresh state
     return None
 
 
@@ -487,23 +495,40 @@ def removed_spans(text, new, cur):
     out = []
     if k < 0:
         return out
-    for a in range(max(0, cur - k), min(cur, len(new)) + 1):
-        if text[:a] + text[a + k:] == new:
-            out.append((a, a + k))
+    # (also: an exclusive motion that ends in column 0 stops at the end of the previous line,
+    #  so a backward span may be separated from the cursor by exactly that newline)
+    for a in range(max(0, cur - k - 1), min(cur, len(new)) + 1):
+        b = a + k
+        if text[:a] + text[b:] == new and (b >= cur or (b == cur - 1 and text[b] == "\n" and k > 0)):
+            out.append((a, b))
     return out
+
+
+def vi_fix(text, cur):
+    """navigation mode never leaves the cursor behind the last character of a non-empty line
+    (KeyProcessor._fix_vi_cursor_position runs after every key handler)"""
+    ls, le = line_start(text, cur), line_end(text, cur)
+    return cur - 1 if (cur == le and le > ls) else cur
+
+
+def d_spans(text, cur, d, reg=None):
+    """spans (a, b) compatible with a `d` run: new text == text[:a]+text[b:], a <= cur <= b"""
+    return removed_spans(text, d["text"], cur)
 
 
 def check_op(case, op, r, dref):
     """violations of the property for one operator run; dref() = result of d + the same motion"""
-    text, cur, clip = case["text"], case["cur"], case["clip"]
+    text, clip = case["text"], case["clip"]
     oa, name, reg, ma, m = op[0], op[1], op[2], op[3], op[4:]
+    # a leading count is a key handler of its own: the cursor is normalised after it
+    cur = vi_fix(text, case["cur"]) if oa is not None else case["cur"]
     v = []
     keys = op_keys(op)
 
     def bad(site, cond, msg):
         v.append({"signature": f"{site} | {cond}",
-                  "msg": f"{msg}: text={text!r} cur={cur} keys={keys!r} -> text={r['text']!r} cur={r['cur']} "
-                         f"clip={r['clip']!r} regs={r['regs']!r}"})
+                  "msg": f"{msg}: text={text!r} cur={case['cur']}(->{cur}) keys={keys!r} -> text={r['text']!r} "
+                         f"cur={r['cur']} clip={r['clip']!r} regs={r['regs']!r}"})
 
     site = {"d": "delete_or_change_operator", "c": "delete_or_change_operator", "y": "yank operator",
             ">": "indent operator", "<": "unindent operator", "gq": "reshape operator"}.get(name, "transform operator")
@@ -523,9 +548,12 @@ def check_op(case, op, r, dref):
     others_ok = (r["regs"] == {} if reg is None else (new_clip == clip_before and set(r["regs"]) <= {reg}))
     untouched = (new_clip == clip_before and r["regs"] == {})
 
+    def cur_ok(expected):
+        return nc == expected or (not r["insert"] and nc == vi_fix(nt, expected))
+
     f = fails(text, cur, m, count)
     if f is True:
-        if nt != text or nc != cur or not untouched:
+        if nt != text or not cur_ok(cur) or not untouched:
             bad(site, "failing motion " + m[0], "the motion fails / spans nothing but the operator changed something")
         return v
 
@@ -548,36 +576,29 @@ def check_op(case, op, r, dref):
         for a, b in spans:
             rem = text[a:b]
             if a == b:
-                if untouched and nc == cur:
+                if untouched and cur_ok(cur):
                     ok = True
                 continue
-            if nc != a:
+            if not cur_ok(a):
                 continue
-            if stored is None or (reg is None and stored == clip_before and stored[0] != rem):
-                if lw and rem == "\n":
-                    stale = True
-                continue
-            st_text, st_lines = stored
-            if lw or st_lines:
-                at_ls = a == 0 or text[a - 1] == "\n"
-                at_le = b == len(text) or text[b - 1] == "\n"
+            unchanged = (stored is None) or (reg is None and stored == clip_before)
+            at_ls = a == 0 or text[a - 1] == "\n"
+            at_le = b == len(text) or text[b - 1] == "\n"
+            if lw or (stored is not None and stored[1] == 1):
                 exp = rem[:-1] if rem.endswith("\n") else rem
-                if at_ls and at_le and st_lines == 1 and st_text == exp:
-                    if exp == "" and reg is None and clip_before == ("", 1):
-                        stale = True  # cannot distinguish; treat as stale
-                    else:
-                        ok = True
-                elif rem == "\n" and at_ls:
-                    stale = True
-            else:
-                if st_text == rem and st_lines == 0:
+                if at_ls and at_le and stored is not None and stored == (exp, 1) and not (unchanged and exp == ""):
                     ok = True
+                elif rem == "\n" and at_ls and unchanged:
+                    stale = True
+            elif stored is not None and stored == (rem, 0):
+                ok = True
         if not ok:
             if stale:
                 bad(site, "linewise span is one empty line: register not updated",
                     "a linewise delete removed an empty line but left the register stale")
             else:
-                bad(site, "register != removed characters", "register/clipboard does not hold exactly the removed span, or cursor not at its start")
+                bad(site, "register != removed characters",
+                    "register/clipboard does not hold exactly the removed span, or cursor not at its start")
         sp = span_spec(text, cur, m, count) if f is False else None
         if sp is not None:
             a, b, _ = sp
@@ -589,51 +610,94 @@ def check_op(case, op, r, dref):
     d = dref()
     if d is None or d["err"] or d["pending"]:
         return v
-    k = len(text) - len(d["text"])
-    a = d["cur"] if k > 0 else cur
-    b = a + k
-    if k < 0 or text[:a] + text[b:] != d["text"]:
+    spans = removed_spans(text, d["text"], cur)
+    if not spans:
         return v  # d itself is off; reported at the d run
     if not untouched:
         bad(site, "register touched", "a case/indent operator wrote to a register")
-    if k == 0:
-        if nt != text or nc != cur:
+    if spans[0][0] == spans[0][1]:
+        if lw and name in (">", "<", "gq"):
+            # a linewise span that holds no character is the (empty) line of the cursor
+            spans = [(line_start(text, cur), line_start(text, cur))]
+            p = frame_problem(name, text, nt, spans[0][0], spans[0][1], False, count)
+            if p is not None:
+                bad(site, p[0], p[1])
+            return v
+        if nt != text or not cur_ok(cur):
             bad(site, "empty span", "the motion spans nothing but the operator changed text or cursor")
         return v
+    problems = []
+    for a, b in spans:
+        p = frame_problem(name, text, nt, a, b, lw, count)
+        if p is None:
+            return v
+        problems.append(p)
+    bad(site, problems[0][0], problems[0][1])
+    return v
+
+
+def check_move(case, op, r, mvr):
+    """`d<motion>` removes the text between the cursor and the place where the same motion,
+    typed alone, puts the cursor (observe_at: 'the cursor movement of the same motion typed
+    alone'); +-1 for inclusive motions, the column-0 rule and the navigation-mode cursor fix."""
+    if mvr is None or mvr["err"] or r["err"] or r["pending"] or op[4] in LINEWISE:
+        return []
+    if op[4] == "%" and op[3] is not None:
+        return []   # N% is a linewise jump to a percentage of the file
+    text, cur = case["text"], case["cur"]
+    p = mvr["cur"]
+    spans = removed_spans(text, r["text"], cur)
+    ok = False
+    for a, b in spans:
+        if a == b:
+            ok = ok or abs(p - cur) <= 1
+        elif a >= cur:
+            ok = ok or abs(b - p) <= 1
+        else:
+            ok = ok or (abs(a - p) <= 1 and b <= cur)
+    if spans and not ok:
+        return [{"signature": "delete_or_change_operator | span differs from the motion typed alone",
+                 "msg": f"text={text!r} cur={cur} keys={op_keys(op)!r} -> text={r['text']!r}; the motion alone moves the cursor to {p}"}]
+    return []
+
+
+def frame_problem(name, text, nt, a, b, lw, count):
+    """None when `nt` differs from `text` only inside the span [a, b) (its lines for > < gq)"""
     if name in TF:
         tail = len(text) - b
         if nt[:a] != text[:a] or (tail and nt[-tail:] != text[b:]) or len(nt) < a + tail:
-            bad(site, "outside span changed", f"characters outside [{a},{b}) changed")
-        elif nt[a:len(nt) - tail] != TF[name](text[a:b]):
-            bad(site, "inside span", f"text[{a}:{b}] is not the transformed span")
-        return v
+            return ("outside span changed", f"characters outside [{a},{b}) changed")
+        if nt[a:len(nt) - tail] != TF[name](text[a:b]):
+            return ("inside span", f"text[{a}:{b}] is not the transformed span")
+        return None
     # > < gq : lines outside the rows of the span are unchanged
     r1 = row_of(text, a)
     r2req = row_of(text, b - 1)
-    r2 = r2req if lw else row_of(text, b)
+    # (a linewise span that reaches the end of the text may include an empty last line that
+    #  contributes no character)
+    r2 = row_of(text, b) if (not lw or b == len(text)) else r2req
     lines, nlines = text.split("\n"), nt.split("\n")
     if name == "gq":
         head, tail = lines[:r1], lines[r2 + 1:]
         if nlines[:len(head)] != head or (tail and nlines[-len(tail):] != tail):
-            bad(site, "outside span changed", f"lines outside rows {r1}..{r2} changed")
-        return v
+            return ("outside span changed", f"lines outside rows {r1}..{r2} changed")
+        return None
     if len(lines) != len(nlines):
-        bad(site, "line count", "indent changed the number of lines")
-        return v
+        return ("line count", "indent changed the number of lines")
     ic = "    " * count
     for i, (l0, l1) in enumerate(zip(lines, nlines)):
         inside = r1 <= i <= r2
         required = r1 <= i <= r2req
         if not inside:
             if l0 != l1:
-                bad(site, "outside span changed", f"line {i} outside rows {r1}..{r2} changed")
+                return ("outside span changed", f"line {i} outside rows {r1}..{r2} changed")
         elif name == ">":
             if l1 != ic + l0 and (required or l1 != l0):
-                bad(site, "inside span", f"line {i} is not indent+line")
+                return ("inside span", f"line {i} is not indent+line")
         else:
             if not l0.endswith(l1) or l0[:len(l0) - len(l1)].strip() != "":
-                bad(site, "inside span", f"unindent removed non-blank characters on line {i}")
-    return v
+                return ("inside span", f"unindent removed non-blank characters on line {i}")
+    return None
 
 
 def oracle(case):
@@ -661,6 +725,7 @@ def oracle(case):
             return dcache[key]
 
         v += check_op(case, op, r, dref)
+        v += check_move(case, op, r, mvr)
         # the motion typed alone lands where the text object starts: inside the text
         if mvr is not None and not mvr["err"]:
             if mvr["text"] != case["text"] or not (0 <= mvr["cur"] <= len(case["text"])):
